@@ -39,3 +39,22 @@ Definition parse_allocs (c : cfg) (st : bytes * bytes -> hstate) (s : slice) : r
   | Panic => Panic
   | Fuel => Fuel
   end.
+
+(* ---- the log level is a mode of the cost.  The log statements on Parse's path (Model/ParseCalls.v parse_logs,
+   re-derived from the source): "IP is online" / "IP is offline" in onlineTransition are built under IsInfo; the
+   duplicate-IP line of findOrCreateHostWithLock's slow path is unconditional; nothing is guarded by IsDebug. *)
+Inductive loglevel := LError | LInfo | LDebug.
+
+Definition host_allocs_lvl (lvl : loglevel) (h : hstate) : nat :=
+  match h, lvl with
+  | TrackedOnline, _ => 0
+  | TrackedOffline, LError => 0       (* the transition happens, its log line is not built *)
+  | TrackedOffline, _ => 1
+  | Untracked, _ => 3                 (* the host record is allocated at every level *)
+  end.
+
+Definition parse_allocs_lvl (lvl : loglevel) (c : cfg) (st : bytes * bytes -> hstate) (s : slice) : res nat :=
+  match parse c s with
+  | Ok f => Ok (match f_host f with None => 0%nat | Some k => host_allocs_lvl lvl (st k) end)
+  | _ => parse_allocs c st s
+  end.
